@@ -149,6 +149,8 @@ def file_lists(R) -> List[Dict[str, Any]]:
 def make_cases(ctx: Ctx) -> List[Dict[str, Any]]:
     cases = []
     outcomes = [{"outcome": "ok"}] + [{"outcome": "fail_after", "k": k, "nchunks": 3} for k in range(4)] + [{"outcome": "no_result"}, {"outcome": "ok", "nchunks": 0}]
+    # chatty containers: the failure (or the result) comes after many thousands of output chunks
+    outcomes += [{"outcome": "ok", "nchunks": 20000}, {"outcome": "fail_after", "k": 19999, "nchunks": 20000}, {"outcome": "fail_after", "k": 20000, "nchunks": 20000}]
     i = 0
     for cls in ("atlas", "cms_aod", "cms_miniaod"):
         R = ctx.rng("c17", cls)
